@@ -13,7 +13,8 @@ from .engine import Exec, Ctx, State, Contract, mk_heap, conjuncts
 from .extract import Sources
 from .specfns import SPEC
 
-TIMEOUT_MS = int(os.environ.get("PYVC_TIMEOUT_MS", "10000"))
+TIMEOUT_MS = int(os.environ.get("PYVC_TIMEOUT_MS", "8000"))
+MAX_EXTERNAL = 4
 
 
 def build_ctx(repo=None, consts=None):
@@ -127,12 +128,12 @@ def decode(model, heap, v, ctx, seen, depth=0):
     return None
 
 
-def solve(ob, want_model=None):
+def solve(ob, want_model=None, timeout_ms=None):
     t0 = time.time()
     if z3.is_true(ob.goal):
         return "unsat", 0.0, None, "closed"
     s = z3.Solver()
-    s.set("timeout", TIMEOUT_MS)
+    s.set("timeout", timeout_ms or TIMEOUT_MS)
     s.add(*ob.assumptions)
     s.add(z3.Not(ob.goal))
     r = s.check()
@@ -153,7 +154,7 @@ def smt2_of(ob):
     return s.to_smt2()
 
 
-def external(ob, timeout=30):
+def external(ob, timeout=12):
     """second opinion: cvc5 and the z3 CLIs on the SMT-LIB2 text"""
     txt = smt2_of(ob)
     with tempfile.NamedTemporaryFile("w", suffix=".smt2", delete=False) as f:
@@ -175,7 +176,7 @@ def external(ob, timeout=30):
     return out
 
 
-def verify(qual, repo=None, ctx=None, bound=None, second_solver=False):
+def verify(qual, repo=None, ctx=None, bound=None, second_solver=False, fast=False):
     """returns dict(qual, status, obligations=[...], ...).  status: ok | refuted | undecided | error"""
     t_start = time.time()
     out = {"qual": qual, "obligations": [], "status": "ok", "notes": [], "inlined": [], "callee_contracts": [], "bound": bound}
@@ -195,8 +196,8 @@ def verify(qual, repo=None, ctx=None, bound=None, second_solver=False):
         X = Exec(ctx, qual, C)
         heap = mk_heap(ctx)
         st = State({}, heap, [], {})
-        l = fresh("l")
-        st.pc.append(z3.ForAll([l], heap["@len"][l] >= 0, patterns=[heap["@len"][l]]))
+        from .engine import heap_typing
+        st.pc += heap_typing(ctx, heap)
         cls = qual.split(".")[0] if qual.split(".")[0] in ctx.sources.classes else None
         st.meta["cls"] = cls
         params = [a.arg for a in fn.args.args] + [a.arg for a in fn.args.kwonlyargs]
@@ -219,6 +220,11 @@ def verify(qual, repo=None, ctx=None, bound=None, second_solver=False):
         st.meta["old_heap"], st.meta["old_env"] = entry_heap, entry_env
         for r in C.requires:
             st.pc.append(X.truth(X.spec_ev(r, st), st))
+        for lname, inst in C.lemmas:
+            if lname not in ctx.lemmas:
+                raise VCError(f"contract uses unknown lemma {lname}")
+            st.pc.append(X.truth(X.spec_ev(inst, st), st))
+            X.notes.append(f"L: instance of lemma {lname} ({inst}) used at entry; the lemma has its own obligations")
         X.local_defs = {n.name: n for n in fn.body if isinstance(n, ast.FunctionDef)}
         X.loop_prefix = ""
         pre_pc = list(st.pc)
@@ -268,8 +274,8 @@ def verify(qual, repo=None, ctx=None, bound=None, second_solver=False):
         out["loops"] = X.loop_counter
         # vacuity: the precondition must be satisfiable and at least one exit reachable
         s = z3.Solver()
-        s.set("timeout", TIMEOUT_MS)
-        s.add(*pre_pc)
+        s.set("timeout", 1500)     # sat-side query with quantifiers: `unknown` is common and accepted (non-vacuity is
+        s.add(*pre_pc)             # additionally witnessed by the concrete executions of the bounded tier)
         r = s.check()
         out["cover_pre"] = str(r)
         if r == z3.unsat:
@@ -287,10 +293,14 @@ def verify(qual, repo=None, ctx=None, bound=None, second_solver=False):
                 return {p: decode(m, entry_heap, v, ctx, seen) for p, v in inputs.items()}
             return dec
         n_obl = 0
+        n_ext = 0
         for ob in X.obls:
-            res, dt, model, backend = solve(ob, mk_decoder(ob))
+            res, dt, model, backend = solve(ob, mk_decoder(ob), 1500 if fast else None)
             others = []
-            if res == "unknown" or (res == "unsat" and second_solver and backend != "closed"):
+            if fast:
+                pass
+            elif (res == "unknown" and n_ext < MAX_EXTERNAL) or (res == "unsat" and second_solver and backend != "closed"):
+                n_ext += res == "unknown"
                 others = external(ob)
                 if res == "unknown":
                     for nm, a in others:
